@@ -86,6 +86,9 @@ def total (ds : List Rat) : Rat := ds.foldr (· + ·) 0
     `ds` are the distances of consecutive interpolation points -/
 def knotParams (ds : List Rat) : List Rat := 0 :: (cumsumFrom 0 ds).map (· / total ds)
 
+/-- `InterpolatorBase.params` with `equalize=False`: `np.linspace(0, 1, num=len(points))` -/
+def knotParamsEven (n : Nat) : List Rat := (List.range n).map (fun (i : Nat) => (i : Rat) / ((n : Rat) - 1))
+
 /-- the parameters at which `InterpolatedCurveBase.get_length(a, b)` evaluates the curve (repaired code):
     `[lower, *[t for t in params if lower < t < upper], upper]` -/
 def lengthParams (ts : List Rat) (a b : Rat) : List Rat :=
@@ -201,25 +204,28 @@ def handleDClosest (args : List String) : Option String :=
 /-- knots of the linear interpolant through `pts` (chord-length parameters from the distance oracle) -/
 def knotsOf (pts : List V) : List Rat := knotParams ((pts.zip pts.tail).map (fun (p, q) => distQ p q))
 
+/-- knots for `equalize=True` (chord length, from the distance oracle) or `equalize=False` (evenly spaced) -/
+def knotsFor (even : Bool) (pts : List V) : List Rat := if even then knotParamsEven pts.length else knotsOf pts
+
 /-- `c16.ipoint p0;p1;… t eps` → `ok <point at t>` | `reject` | `badwit` (LinearInterpolatedCurve.get_point) -/
-def handleIPoint (args : List String) : Option String :=
+def handleIPoint (even : Bool) (args : List String) : Option String :=
   match args with
   | [pts, t, eps] => do
       let pts ← parseVecs? pts; let t ← parseRat? t; let eps ← parseRat? eps
       if !distOk eps pts then some "badwit"
-      else match lerp (knotsOf pts) pts t with
+      else match lerp (knotsFor even pts) pts t with
         | some p => some s!"ok {showVec p}"
         | none => some "reject"
   | _ => none
 
 /-- `c16.ilen p0;p1;… a b eps` → `ok <length> <number of break points>` | `reject` | `badwit` (LinearInterpolatedCurve.get_length) -/
-def handleILen (args : List String) : Option String :=
+def handleILen (even : Bool) (args : List String) : Option String :=
   match args with
   | [pts, a, b, eps] => do
       let pts ← parseVecs? pts; let a ← parseRat? a; let b ← parseRat? b; let eps ← parseRat? eps
       if !distOk eps pts then some "badwit"
       else
-        let ts := knotsOf pts
+        let ts := knotsFor even pts
         if ¬ (0 ≤ a ∧ a ≤ 1 ∧ 0 ≤ b ∧ b ≤ 1) then some "reject"
         else
           let ps := (lengthParams ts a b).mapM (lerp ts pts)
@@ -231,7 +237,7 @@ def handleILen (args : List String) : Option String :=
 
 /-- `c16.lclosest p0;p1;… q eps` → `ok <segment> <parameter> <squared distance>` | `badwit`
     (LinearInterpolatedCurve.get_closest_param; the parameter uses the chord-length knots of the distance oracle) -/
-def handleLClosest (args : List String) : Option String :=
+def handleLClosest (even : Bool) (args : List String) : Option String :=
   match args with
   | [pts, q, eps] => do
       let pts ← parseVecs? pts; let q ← parseVec? q; let eps ← parseRat? eps
@@ -239,7 +245,7 @@ def handleLClosest (args : List String) : Option String :=
       else if !distOk eps pts then some "badwit"
       else
         let i := closestSeg pts q
-        some s!"ok {i} {showRat (closestParamL (knotsOf pts) pts q)} {showRat (segDist2 (pts.getD i default) (pts.getD (i + 1) default) q)}"
+        some s!"ok {i} {showRat (closestParamL (knotsFor even pts) pts q)} {showRat (segDist2 (pts.getD i default) (pts.getD (i + 1) default) q)}"
   | _ => none
 
 /-- `c16.linspace a b n` → the parameter list of `FunctionCurveBase.discretize` -/
@@ -264,9 +270,12 @@ def handle (op : String) (args : List String) : Option String :=
   | "c16.dpoint" => handleDPoint args
   | "c16.dlen" => handleDLen args
   | "c16.dclosest" => handleDClosest args
-  | "c16.ipoint" => handleIPoint args
-  | "c16.ilen" => handleILen args
-  | "c16.lclosest" => handleLClosest args
+  | "c16.ipoint" => handleIPoint false args
+  | "c16.ilen" => handleILen false args
+  | "c16.ipointE" => handleIPoint true args
+  | "c16.ilenE" => handleILen true args
+  | "c16.lclosestE" => handleLClosest true args
+  | "c16.lclosest" => handleLClosest false args
   | "c16.linspace" => handleLinspace args
   | "c16.parray" => handlePArray args
   | _ => none
